@@ -31,16 +31,21 @@ TIE = 'translator+correspondence'   # translate/gen_c16.py -> Gen/C16.v, Bridge/
 # correspondence (header parse, block chain, field offsets, nibble unpack, CIGAR split, reference interval,
 # prepend-mode chunk reader and writer evaluated in Coq on the decompressed file bytes)
 ASSUMPTIONS = ['A-GZIP: Python gzip/zlib decompress a (multi-member) gzip/BGZF file to the concatenation of the member '
-               'payloads and file.read(n) returns n bytes unless the stream ends (BGZF framing is not modelled)',
+               'payloads and file.read(n) returns n bytes unless the stream ends (BGZF framing is not modelled; the written '
+               "file's container is observed only: it ends with the 28-byte EOF block and gunzips)",
+               'A-VIEW: ndarray.view(dtype) on the (little-endian) host reads n bytes as sum b_i*256^i and np.int32 as the '
+               "two's-complement value; C16_read_field_little_endian states what read_field computes under that reading",
                'the BAM header text is passed through uninterpreted',
-               '"none" for an unmapped record is accepted as the name "*" or the empty name']
-PARTIAL = ['C16_decode_fields_partial / C16_reference_interval_partial: code at HEAD, proved for n_cigar_op < 16384 '
-           '(uint16 overflow of n_cigar_op*4; refuted beyond by C16_decode_fields_refuted)',
-           'C16_reference_name_partial: code at HEAD, proved for mapped records only (names[-1]; refuted for refID -1 by '
-           'C16_reference_name_refuted)',
-           'C16_model_satisfies_spec_partial: whole property for the code at HEAD under both guards; the unguarded '
-           'C16_model_satisfies_spec is about the repaired variant (notes/C16.fix-1.diff, fix-2.diff)']
-PER_FILE = 16
+               '"none" for an unmapped record is accepted as the name "*" or the empty name; its interval is still '
+               'position .. position + reference-consuming CIGAR lengths (C16_unmapped_interval)',
+               'element-wise NumPy expressions are read per element by the translator (one record / byte / CIGAR word)']
+PARTIAL = ['current = repaired (fix-1 3cd2e75, fix-2 2cce06d are in /repo): the unguarded theorems are about the code as it is',
+           'C16_decode_fields_partial / C16_reference_interval_partial / C16_reference_name_partial / '
+           'C16_model_satisfies_spec_partial and the two _refuted theorems are about the variant `pinned` (the code before '
+           'the two fixes) and are kept as history of the findings',
+           'C16_model_ok_implies_spec_ok needs in_scope c (chunk sizes >= largest record, index lists in range, blocks fit '
+           '32 bits - true of every generated case by construction) and takes the EOF-block observation as a hypothesis']
+PER_FILE = 8
 EOF_MARKER = bytes.fromhex('1f8b08040000000000ff0600424302001b0003000000000000000000')
 SEQ_LETTERS = '=ACMGRSVTWYHKDBN'
 CIGAR_LETTERS = 'MIDNSHP=X'
@@ -107,9 +112,9 @@ def _rec(rng, nrefs, name_len=None, n_cigar=None, l_seq=None, unmapped=None, tag
     if name_len is None:
         name_len = rng.choice([1, 2, 3, 4, 5, 7, 8, 11, 12, 30, 253, 254]) if rng.random() < 0.5 else rng.randint(1, 20)
     if n_cigar is None:
-        n_cigar = rng.choice([0, 1, 1, 2, 3, 5, 9])
+        n_cigar = rng.choice([0, 1, 1, 2, 3, 5, 9]) if rng.random() < 0.95 else rng.choice([17, 40, 64])
     if l_seq is None:
-        l_seq = rng.randint(0, 19)
+        l_seq = rng.randint(0, 19) if rng.random() < 0.93 else rng.choice([75, 76, 150, 151, 255, 256, 301])
     name = bytes(rng.choice(b'abcXYZ0189_.:/#!~') for _ in range(name_len))
     cig = [[rng.randrange(9), rng.choice([0, 1, 2, 15, 16, 17, 255, 256, 4095, 4096, 65535, 65536, 2 ** 28 - 1])
             if rng.random() < 0.3 else rng.randint(1, 60)] for _ in range(n_cigar)]
@@ -188,7 +193,7 @@ def _writes(rng, case, n_extra=2):
         perm = perm[::-1]
     ws.append(dict(mode=1, idx=perm, how='list'))
     if n_extra > 2:
-        ws.append(dict(mode=1, idx=[i for i in perm if rng.random() < 0.6], how='list'))
+        ws.append(dict(mode=1, idx=[i for i in perm if rng.random() < 0.6] + [perm[0]] * (n > 1), how='list'))   # with a repeat
         ws.append(dict(mode=2, k=rng.choice(_ks(rng, case, 6))))
     return ws
 
@@ -248,7 +253,7 @@ def generate(tier, seed):
     cases.append(_mk(rng, _refs(rng, 1), [_rec(rng, 1, unmapped=False)]))
     cases.append(_mk(rng, _refs(rng, 3), [_rec(rng, 3, unmapped=False, end10=True)]))
     # 4. random files
-    for t in range(150 if not thorough else 1500):
+    for t in range(150 if not thorough else 1200):
         nrefs = rng.choice([0, 1, 1, 1, 2, 2, 2, 3, 3, 3, 3, 3])
         refs = _refs(rng, nrefs)
         nrec = rng.choice([1, 2, 3, 4, 5, 6, 8])
@@ -503,8 +508,9 @@ def _is_last_ref(case, rec, got):
     return bool(case['refs']) and got == case['refs'][-1][0].encode().hex()
 
 
-def finding(case, o):
-    """Signature matchers: a failing case matches a known finding only if everything that is wrong in it is
+def _historic_finding(case, o):
+    """(history: matchers of the two findings that are fixed in /repo since 3cd2e75 / 2cce06d)
+    Signature matchers: a failing case matches a known finding only if everything that is wrong in it is
     explained by that finding."""
     if 'error' in o:
         return None
@@ -563,6 +569,11 @@ def finding(case, o):
         if not recs_ok(wo['reread'], idx):
             return None
     return 'C16-unmapped-last-reference'
+
+
+def finding(case, o):
+    """No known finding is open for C16: every spec violation or model disagreement is reported."""
+    return None
 
 
 def signature(case, o):
